@@ -126,6 +126,9 @@ func FamilyOf(prop string, seed, i uint64) string {
 		if i%4 == 3 {
 			return "reconn"
 		}
+		if i%16 == 5 {
+			return "retrymanual" // errors returned by RetryClient.Connect itself (refused CONNACK)
+		}
 		return "base"
 	case "C12":
 		if i%3 == 0 {
